@@ -152,6 +152,35 @@ def _assign(o, a, v):
     return o
 
 
+@spec_class(bootstrap=True)
+class Shelf:
+    rk: KeyedList[KItem, str] = Attr(default_factory=lambda: KeyedList[KItem, str]([KItem("a"), KItem("b")]), do_not_copy=True)
+    rs: KeyedSet[KItem, str] = Attr(default_factory=lambda: KeyedSet[KItem, str]([KItem("a")]), do_not_copy=True)
+    rl: List[int] = Attr(default_factory=lambda: [1, 2], do_not_copy=True)
+
+
+def c_do_not_copy_collection_helpers():
+    """copy-on-write element helpers on attributes declared do_not_copy (the class itself is copyable): the receiver's own
+    container - including what a keyed container holds internally - is not edited (C01)"""
+    def snap(o):
+        return ([repr(x) for x in o.rk], sorted(repr(x) for x in o.rs), list(o.rl))
+    calls = (("with_rk_item('z')", lambda o: o.with_rk_item("z")), ("without_rk_item('a')", lambda o: o.without_rk_item("a")),
+             ("update_rk_item('a', value=5)", lambda o: o.update_rk_item("a", value=5)),
+             ("transform_rk_item('a', value=lambda v: v + 1)", lambda o: o.transform_rk_item("a", value=lambda v: v + 1)),
+             ("with_rs_item('z')", lambda o: o.with_rs_item("z")), ("without_rs_item('a')", lambda o: o.without_rs_item("a")),
+             ("with_rl_item(9)", lambda o: o.with_rl_item(9)), ("without_rl_item(1)", lambda o: o.without_rl_item(1)))
+    for label, call in calls:
+        o = Shelf()
+        before = snap(o)
+        try:
+            call(o)
+        except Exception:      # noqa
+            pass
+        if snap(o) != before:
+            return "Shelf().%s changed the receiver's own do_not_copy container: %r -> %r" % (label, before, snap(o))
+    return None
+
+
 def c_nothing_to_update():
     car = Car(engine=Engine(power=100, label="v6"))
     for label, op in (("update_engine()", lambda: car.update_engine()), ("transform_engine()", lambda: car.transform_engine()),
@@ -267,7 +296,7 @@ def c_chain_through_unset_link():
     return None
 
 
-CHECKS = {"C01": [c_sharing, c_nested_failure, c_argument_container_untouched, c_container_values_sharing], "C06": [c_argument_container_untouched], "C02": [c_sharing, c_nothing_to_update, c_container_values_sharing], "C08": [c_sharing, c_reset_all, c_container_values_sharing], "C04": [c_nested_failure, c_failed_assignment_keeps_caches],
+CHECKS = {"C01": [c_sharing, c_nested_failure, c_argument_container_untouched, c_container_values_sharing, c_do_not_copy_collection_helpers], "C06": [c_argument_container_untouched, c_do_not_copy_collection_helpers], "C02": [c_sharing, c_nothing_to_update, c_container_values_sharing], "C08": [c_sharing, c_reset_all, c_container_values_sharing], "C04": [c_nested_failure, c_failed_assignment_keeps_caches],
           "C07": [c_nested_failure], "C03": [c_keyed_container_elements], "C05": [c_reset_all], "C11": [c_chain_through_unset_link, c_collection_invalidation, c_failed_assignment_keeps_caches]}
 
 REPLAY = '''#!/venv/bin/python
